@@ -1,6 +1,115 @@
-(* Props/C13.v — property theorems only; proofs live in Proofs/. *)
+(* Props/C13.v — property theorems only; proofs live in Proofs/C13.v.
+
+   Reading guide.  [reader] is a Message in decode mode: the bytes already
+   buffered, the frames still to come, and [r_alloc], the bytes requested from
+   make()/append so far.  [avail r] = buffered + still-to-come bytes, so
+   [avail r - avail r'] is what a call consumed.  A Go run-time failure is the
+   explicit outcome MPanic / FPanic / None; errors are MErr / FErr / Some None.
+   Termination needs no theorem: every model function is a structural
+   recursion whose fuel is derived from the input still available (bytes or
+   frames), so no decoder can run longer than the input it is given; the only
+   unbounded recursion of the code (frame reassembly) recurses on the input. *)
 From Coq Require Import List NArith ZArith.
-From Cedar Require Import Lib.Bytes Model.Msg Model.Decode.
-Theorem C13_go_make_negative_panics : forall n, (n < 0)%Z -> go_make n = None.
-Proof. intros n H. unfold go_make. destruct (Z.ltb_spec n 0); [reflexivity|contradiction (Z.lt_irrefl n); eapply Z.lt_le_trans; eauto]. Qed.
-Print Assumptions C13_go_make_negative_panics.
+From Cedar Require Import Lib.Bytes gen.Consts Model.Msg Model.Decode Proofs.C13.
+Import ListNotations.
+Local Open Scope N_scope.
+
+(* No sequence of decoder calls (typed strings, capped strings, skip, raw bytes, the
+   bounded / unbounded ClassAd reader, SkipClassAdRaw, exchangeKey, SSL receiveMessage,
+   getIDString), on ANY frame list, in either encryption mode, for ANY behaviour of the
+   external expression parser, panics. *)
+Theorem C13_no_panic :
+  forall (parse : N -> bytes -> bool) (enc : bool) (ds : list decoder) (r : reader),
+    snd (run_decoders parse enc ds r) <> MPanic.
+Proof. exact no_panic_seq. Qed.
+Print Assumptions C13_no_panic.
+
+Theorem C13_no_panic_classad_raw :
+  forall (enc : bool) (r : reader), snd (get_classad_raw enc r) <> MPanic.
+Proof. exact get_classad_raw_np. Qed.
+Print Assumptions C13_no_panic_classad_raw.
+
+(* Allocation is bounded by the bytes consumed: c1 = 1, c2 = 0 at the message level. *)
+Theorem C13_alloc_bounded :
+  forall (parse : N -> bytes -> bool) (enc : bool) (ds : list decoder) (r : reader),
+    let r' := fst (run_decoders parse enc ds r) in
+    r_alloc r <= r_alloc r' /\ avail r' <= avail r /\
+    r_alloc r' + avail r' <= r_alloc r + avail r.
+Proof. exact alloc_bounded_seq. Qed.
+Print Assumptions C13_alloc_bounded.
+
+(* A capped string reader consumes at most cap (+8 for the length prefix) bytes, never
+   returns more than cap bytes without an error, and does not ask the stream for another
+   frame while that many bytes are already buffered. *)
+Theorem C13_cap :
+  forall (enc : bool) (cap : Z) (r : reader), (0 < cap)%Z ->
+    let x := get_string_max enc cap r in
+    avail r <= avail (fst x) + Z.to_N cap + (if enc then 8 else 0) /\
+    (forall s, snd x = MOk s -> lenN s <= Z.to_N cap) /\
+    (Z.to_N cap + (if enc then 8 else 0) <= lenN (r_buf r) -> r_in (fst x) = r_in r).
+Proof. exact cap_string. Qed.
+Print Assumptions C13_cap.
+
+(* Every string of a bounded ClassAd (expressions, the ZKM secret field, MyType,
+   TargetType) is read under the remaining budget, and nothing is read once it is spent. *)
+Theorem C13_cap_classad_read_partial :
+  forall (enc : bool) (cap total : Z) (r : reader), (0 < cap)%Z ->
+    let x := budget_read enc cap total r in
+    ((cap - total <= 0)%Z -> x = (r, MErr MOther)) /\
+    ((0 < cap - total)%Z ->
+       avail r <= avail (fst x) + Z.to_N (cap - total) + (if enc then 8 else 0) /\
+       (forall s, snd x = MOk s -> lenN s <= Z.to_N (cap - total)) /\
+       (Z.to_N (cap - total) + (if enc then 8 else 0) <= lenN (r_buf r) -> r_in (fst x) = r_in r)).
+Proof. exact cap_classad_read. Qed.
+Print Assumptions C13_cap_classad_read_partial.
+
+(* Frames on a raw connection, cleartext or AES-GCM (any [open_] that does not lengthen
+   its input): one frame, readNextFrame and ReceiveCompleteMessage never panic, never
+   consume more than is there, and allocate at most 16 bytes per byte consumed plus one
+   frame buffer (5 + MaxMessageSize + 32 + 69). *)
+Theorem C13_frames_total_bounded :
+  forall (encrypted : bool) (open_ : N -> bytes -> bytes -> option bytes),
+    (forall k h b p, open_ k h b = Some p -> lenN p <= lenN b) ->
+    forall (k : N) (c : conn),
+    let post := fun (y : conn * fres (bytes * N)) =>
+      snd y <> FPanic /\ lenN (c_in (fst y)) <= lenN (c_in c) /\
+      c_alloc (fst y) + 16 * lenN (c_in (fst y)) <= c_alloc c + 16 * lenN (c_in c) + frame_const in
+    post (recv_frame encrypted open_ k c) /\
+    post (read_next_frame encrypted open_ k c) /\
+    post (receive_complete_message encrypted open_ k c).
+Proof. exact frames_total_bounded. Qed.
+Print Assumptions C13_frames_total_bounded.
+(* the hypothesis is satisfiable by a decryption that accepts everything *)
+Example C13_frames_hypothesis_satisfiable :
+  exists open_ : N -> bytes -> bytes -> option bytes,
+    (forall k h b p, open_ k h b = Some p -> lenN p <= lenN b) /\
+    snd (receive_complete_message true open_ 0
+           {| c_in := [x00; x00; x00; x00; x02; x61; x62; x01; x00; x00; x00; x01; x63]; c_alloc := 0 |})
+    = FOk ([x61; x62; x63], 2).
+Proof.
+  exists (fun _ _ b => Some b). split.
+  - intros k h b p H. inversion H; subst. apply N.le_refl.
+  - vm_compute. reflexivity.
+Qed.
+
+(* NewStreamWithCryptoState's blob parser: no slice expression can go out of range, and an
+   accepted blob costs at most 32 + |blob| bytes. *)
+Theorem C13_crypto_state_total :
+  forall blob : bytes,
+    parse_crypto_state blob <> None /\
+    (forall s a, parse_crypto_state blob = Some (Some (s, a)) -> a <= 32 + lenN blob).
+Proof. exact crypto_state_total. Qed.
+Print Assumptions C13_crypto_state_total.
+
+Theorem C13_claim_id_total : forall c : bytes, parse_claim_id_strict c <> None.
+Proof. exact parse_claim_id_strict_total. Qed.
+Print Assumptions C13_claim_id_total.
+
+Theorem C13_session_info_total : forall info : bytes, import_session_info_attributes info <> None.
+Proof. exact import_session_info_attributes_total. Qed.
+Print Assumptions C13_session_info_total.
+
+(* The Panic outcome is not vacuous: the model of GetString before the fix panics. *)
+Theorem C13_unfixed_get_lstr_refuted : exists fs, snd (get_lstr (reader_of fs)) = MPanic.
+Proof. exact unfixed_get_lstr_panics. Qed.
+Print Assumptions C13_unfixed_get_lstr_refuted.
